@@ -164,6 +164,9 @@ func (g *Gen) Type(t schema.Type, budget int) Value {
 			if g.small == 0 && g.Cfg.LongProb > 0 && r.Chance(1, g.Cfg.LongProb) {
 				n = g.Cfg.LongLen
 			}
+			if g.small == 0 && r.Chance(1, 8) {
+				n = r.Intn(141)
+			}
 			if l, ok := g.ladder(); ok {
 				n = l
 			}
@@ -404,6 +407,15 @@ func (g *Gen) str() []byte {
 	}
 	if g.small == 0 && g.Cfg.LongProb > 0 && r.Chance(1, g.Cfg.LongProb) {
 		b := r.Bytes(g.Cfg.LongLen)
+		for i := range b {
+			b[i] = 'a' + b[i]%26
+		}
+		return b
+	}
+	if g.small == 0 && r.Chance(1, 8) {
+		// every length up to a few small buffers' worth turns up over a batch (inline
+		// scratch arrays, small-string fast paths: 16, 32, 64, 128 and their neighbours)
+		b := r.Bytes(r.Intn(141))
 		for i := range b {
 			b[i] = 'a' + b[i]%26
 		}
